@@ -33,6 +33,18 @@ def trees(rng):
         sc.d(b'/W').d(b'/W/S'); sc.opts = ['r']; sc.extra = ['--block-size', '4096']; sc.paths = [b'S', b'DEST']; sc.tag = 'sparse-many-blocks'; sc.only_workers = (1, 2)
         sc.sparse = (b'/W/S/sp', [(0, 262144 * 5)], 262144 * 5 + 8 * 1048576)
         out.append(sc)
+        # hundreds of EMPTY files (package trees full of empty __init__.py / .gitkeep) next to small ones
+        sc = treerun.Scn(); sc.driver = driver
+        sc.d(b'/W').d(b'/W/S')
+        for i in range(300):
+            sc.d(b'/W/S/p%d' % i) if i % 10 == 0 else None
+            sc.f(b'/W/S/p%d/e%d' % (i - i % 10, i), text=b''); sc.f(b'/W/S/p%d/m%d' % (i - i % 10, i), text=b'm' * (1 + i % 50)) if i % 5 == 0 else None
+        sc.opts = ['r']; sc.paths = [b'S', b'DEST']; sc.tag = 'many-empty-files'; sc.only_workers = (1, 4, 64); out.append(sc)
+        # the repaired defect F21: --gitignore with a source whose `.gitignore` is a FIFO (or a link to one): it is an entry to
+        # recreate like any other special file, never something to open and read
+        sc = treerun.Scn(); sc.driver = driver
+        sc.d(b'/W').d(b'/W/S').f(b'/W/S/a').s(b'/W/S/.gitignore', 'fifo').d(b'/W/S/sub').f(b'/W/S/sub/b').d(b'/W/T').s(b'/W/T/realfifo', 'fifo').l(b'/W/T/.gitignore', b'realfifo').f(b'/W/T/c')
+        sc.opts = ['r', 'gitignore']; sc.paths = [b'S', b'T', b'DEST']; sc.d(b'/W/DEST'); sc.tag = 'gitignore-is-a-fifo'; sc.only_workers = (1, 4); out.append(sc)
         # a sparse file whose LAST extent is preallocated but unwritten (data, hole, fallocate region): extent paging must end
         sc = treerun.Scn(); sc.driver = driver
         sc.d(b'/W').d(b'/W/S').f(b'/W/S/plain'); sc.opts = ['r']; sc.extra = ['--block-size', '65536']; sc.paths = [b'S', b'DEST']; sc.tag = 'prealloc-tail'; sc.only_workers = (1, 4)
@@ -89,6 +101,11 @@ def run_with_sparse(base, sc, limit):
     return o
 
 
+def enough(ctx):
+    """six hangs are proof enough: every further hang costs the whole time limit"""
+    return sum(1 for _, t, _ in ctx.violations if 'did not finish' in t or 'hung' in t or 'spins' in t) >= 6
+
+
 def run(ctx):
     ctx.proofs()
     core.build_repo(); core.build_sup()
@@ -96,6 +113,8 @@ def run(ctx):
     rng = ctx.rng
     with core.Scratch('c07') as base:
         for sc in trees(rng):
+            if enough(ctx):
+                break
             for workers in (getattr(sc, 'only_workers', None) or ((1, 64) if ctx.quick else (1, 2, 3, 8, 64))):
                 sc.workers = workers
                 o0 = run_with_sparse(base, sc, LIMIT)
@@ -104,10 +123,10 @@ def run(ctx):
                 if o0.res.cls == 'hang':
                     ctx.violation(f'{sc.tag}-{sc.driver}-{workers}-hang.json', dict(tree=sc.tag, argv=[repr(x) for x in o0.argv]), f'C07: xcp did not finish within {LIMIT}s on {sc.tag} ({sc.driver}, {workers} workers)')
                     continue
-                opened = [e for e in o0.res.trace if e['sys'] == 'openat' and e['ret'] >= 0 and any(x in (e.get('fdpath') or '') for x in ('/fifo', '/sock', 'onlyfifo'))]
+                opened = [e for e in o0.res.trace if e['sys'] == 'openat' and e['ret'] >= 0 and any(x in (e.get('fdpath') or '') for x in ('/fifo', '/sock', 'onlyfifo', 'realfifo', 'S/.gitignore'))]
                 if opened:
                     ctx.violation(f'{sc.tag}-{sc.driver}-opened.json', dict(events=opened[:5]), 'C07/C14: a FIFO or socket source was opened')
-                if workers != 1 or sc.tag in ('all-workers-die-silently', 'prealloc-tail'):
+                if workers != 1 or sc.tag in ('all-workers-die-silently', 'prealloc-tail', 'gitignore-is-a-fifo', 'many-empty-files'):
                     continue
                 # a single fault at every step-call, each under a perturbed schedule
                 occ, plans = {}, []
@@ -123,6 +142,8 @@ def run(ctx):
                 if len(plans) > (30 if ctx.quick else 400):
                     plans = rng.sample(plans, 30 if ctx.quick else 400)
                 for j, (site, pl) in enumerate(plans):
+                    if enough(ctx):
+                        break
                     plan = [pl, f'sched {ctx.seed * 31 + j} {rng.choice(["pct", "delay"])} {rng.randint(1, 3)}']
                     sc.workers = rng.choice([1, 2, 8, 64])
                     o = treerun.run(base, sc, plan=plan, trace=True, timeout=LIMIT)
@@ -139,11 +160,30 @@ def run(ctx):
             open(f'{d}/S/f{k}', 'wb').write(b'x' * 100)
         for driver in ('parfile', 'parblock'):
             for nf in ((4, 5, 6, 8, 10, 12) if ctx.quick else (3, 4, 5, 6, 7, 8, 9, 10, 11, 12, 14, 16, 20)):
+                if enough(ctx):
+                    break
                 for argv, what in ((['--driver', driver, d + '/S/f0', d + f'/out-{driver}-{nf}'], 'one-file'), (['-r', '--driver', driver, '-w', '16', d + '/S', d + f'/tree-{driver}-{nf}'], 'tree-16-workers')):
                     r = scen.run_xcp(d, argv, timeout=LIMIT, env_extra={'SUP_CHILD_NOFILE': str(nf)})
                     ctx.count(f'low_nofile.{what}.{r.cls}'); ctx.case(('low-nofile', driver, nf, what), True, sample=dict(limit=nf, driver=driver, what=what, exit=r.cls) if nf == 6 and driver == 'parfile' else None)
                     if r.cls == 'hang':
                         ctx.violation(f'low-nofile-{driver}-{nf}-{what}.json', dict(argv=argv, nofile=nf), f'C07: xcp did not finish within {LIMIT}s with RLIMIT_NOFILE={nf} ({driver}, {what})')
+        # FREE-RUNNING (no supervisor): thousands of small files of varied sizes with many workers reporting progress at the same
+        # instant — contention on the progress bookkeeping must not stop a thread from finishing
+        d = base + '/many'; shutil.rmtree(d, ignore_errors=True); os.makedirs(d + '/S')
+        for k in range(4000):
+            if k % 200 == 0: os.makedirs(f'{d}/S/g{k // 200}', exist_ok=True)
+            open(f'{d}/S/g{k // 200}/f{k}', 'wb').write(b'x' * (1 + (k * 7919) % 3000))
+        for rep in range(6 if ctx.quick else 30):
+            if enough(ctx):
+                break
+            driver = ['parfile', 'parfile', 'parblock'][rep % 3]
+            shutil.rmtree(d + '/D', ignore_errors=True)
+            r = scen.run_xcp(d, ['-r', '--driver', driver, '-w', str([32, 16, 32][rep % 3]), 'S', 'D'], timeout=40, trace=False)
+            ctx.count(f'free_running_many_small.{driver}.{r.cls}'); ctx.case(('free-running-many-small', rep, driver), True)
+            if r.cls == 'hang':
+                ctx.violation(f'free-running-{rep}.json', dict(files=4000, driver=driver, workers=[32, 16, 32][rep % 3]), f'C07: xcp did not finish within 40s copying 4000 small files with many free-running workers ({driver})')
+                break
+        shutil.rmtree(d, ignore_errors=True)
         # a source whose size lies (sysfs: st_size 4096, a few bytes delivered) on another file system (copy_file_range: EXDEV)
         sysf = '/sys/devices/system/cpu/online'
         if os.path.exists(sysf):
@@ -157,6 +197,8 @@ def run(ctx):
         root = base + '/lib'
         os.makedirs(root)
         for i in range(16 if ctx.quick else 200):
+            if enough(ctx):
+                break
             shutil.rmtree(root + '/S', ignore_errors=True); shutil.rmtree(root + '/D', ignore_errors=True)
             os.makedirs(root + '/S/sub')
             for k in range(rng.choice([0, 3, 30])):
